@@ -93,14 +93,14 @@ def _plan(cur, step, k):
     if entry == 'connect_left' and not right and len(oi) == len(set(oi)):
         pool_t = labs_c
         if pool_t and oi:
-            this = [pool_t[(step['pairs'][q % len(step['pairs'])][0] if step['pairs'] else q) % len(pool_t)] for q in range(len(oi))]
-            return dict(entry='connect_left', this=this, other=list(oi), right=False, other_nl=other)
+            this_l = [pool_t[(step['pairs'][q % len(step['pairs'])][0] if step['pairs'] else q) % len(pool_t)] for q in range(len(oi))]
+            return dict(entry='connect_left', this=this_l, other=list(oi), right=False, other_nl=other)
     if entry == 'connect_right' and ci:
         pool_o = labs_o if step['conn_kind'] != 'inputs' else (oi or labs_o)
         if pool_o:
-            oth = [pool_o[(step['pairs'][q % len(step['pairs'])][1] if step['pairs'] else q) % len(pool_o)] for q in range(len(ci))]
-            if not any(typ_o[o] == 'INPUT' and oth.count(o) > 1 for o in oth):
-                return dict(entry='connect_right', this=list(ci), other=oth, right=True, other_nl=other)
+            oth_r = [pool_o[(step['pairs'][q % len(step['pairs'])][1] if step['pairs'] else q) % len(pool_o)] for q in range(len(ci))]
+            if not any(typ_o[o] == 'INPUT' and oth_r.count(o) > 1 for o in oth_r):
+                return dict(entry='connect_right', this=list(ci), other=oth_r, right=True, other_nl=other)
     if entry == 'extend_explicit':
         return dict(entry='extend_explicit', this=this, other=oth, right=right, other_nl=other)
     return dict(entry='connect_circuit', this=this, other=oth, right=right, other_nl=other)
